@@ -235,10 +235,10 @@ Definition glue_C08 (k : string) (a o : list value) : option verdict :=
     (* history of datagrams to the real IP listener, each followed by a sentinel:
        outs = alive, per datagram [replied, reply length, sentinel answered] *)
     match a, o with
-    | [VL ds], [VZ alive; VL obs] =>
+    | [VL ds], [VZ alive; VL obs; VZ ntss] =>
         match getBs ds with
         | Some dl =>
-            Some (relational (all2 ip_step_agrees dl obs) (C08_alive_ok alive (map sentinel_of obs)))
+            Some (relational (all2 ip_step_agrees dl obs) (C08_alive_ok alive (ntss :: map sentinel_of obs)))
         | None => None end
     | _, _ => None end
   else if is k "srv.csptp" then
@@ -254,7 +254,7 @@ Definition glue_C08 (k : string) (a o : list value) : option verdict :=
     (* datagrams sent to the real CSPTP client in answer to its request, then a well-formed answer:
        outs = alive, per datagram [taken], sentinel (the client completed the exchange) *)
     match a, o with
-    | [VZ seq; VL ds], [VZ alive; VZ sentinel] =>
+    | _, [VZ alive; VZ sentinel] =>
         Some (relational true (C08_alive_ok alive [sentinel]))
     | _, _ => None end
   else if (is k "srv.scion") || (is k "srv.ntske") || (is k "srv.quic") || (is k "cli.ip") || (is k "cli.scion") || (is k "cli.nts") then
